@@ -45,11 +45,12 @@ def bounds(tier):
     if tier == "quick":
         return {"sizes": [[1, 1], [2, 1], [1, 2], [2, 2], [3, 1]], "easy": [[0, 0], [1, 2], [3, 4]], "supply": len(SUPPLY),
                 "nb_points": NBP, "alphas": ALPHAS, "methods": METHODS, "menu_sequences": 27, "builtin_nb_samples": 1,
-                "big_sizes": [[5, 1], [1, 6]]}
+                "big_sizes": [[5, 1], [1, 6]], "light_sizes": [10, 13, 22, 49, 98, 103]}
     return {"sizes": [[1, 1], [2, 1], [1, 2], [2, 2], [3, 1], [1, 3], [3, 2], [2, 3]], "easy": [[0, 0], [1, 2], [3, 4], [8, 0], [11, 12]],
             "supply": len(SUPPLY), "nb_points": NBP + [9], "alphas": ALPHAS + [0.9], "methods": METHODS,
             "menu_sequences": 27, "builtin_nb_samples": 2,
-            "big_sizes": [[5, 1], [1, 6], [10, 1], [1, 13], [14, 1], [2, 15], [7, 2], [22, 1]]}
+            "big_sizes": [[5, 1], [1, 6], [10, 1], [1, 13], [14, 1], [2, 15], [7, 2], [22, 1]],
+            "light_sizes": list(range(7, 201))}
 
 
 def work(tier, seed):
@@ -66,6 +67,13 @@ def work(tier, seed):
         for bl in ot.order_types(P, Q, P, Q, tie_free=True):
             items.append({"blocks": [list(x) for x in bl], "easy": [0, 0], "rot": k})
             k += 1
+    # much larger classes, light mode (identity sampler, all scores as support): the float comparisons in the
+    # rule-of-three trigger depend on the class size (1/n, (n-1)/n, p*n), e.g. n = 49, 98, 103, 107
+    for n in b["light_sizes"]:
+        for split in (0, 1, n // 2, n - 1, n):
+            for ep, en in ((0, 0), (1, 0)):
+                items.append({"light": True, "n": n, "split": split, "easy": [ep, en], "rot": k})
+                k += 1
     return items
 
 
@@ -208,6 +216,8 @@ def run(item, ctx, tier, seed):
     from score_analysis.roc_curve import roc_with_ci
 
     b = bounds(tier)
+    if item.get("light"):
+        return _run_light(item, ctx)
     blocks = [tuple(x) for x in item["blocks"]]
     ep, en = item["easy"]
     rot = item["rot"]
@@ -338,6 +348,36 @@ def run(item, ctx, tier, seed):
                     ctx.fail("leaf-probabilities-sum-to-one", case, observed=mass, expected=1.0)
     ctx.sample({"pos": pos, "neg": neg, "easy": [ep, en], "supply_menu": SUPPLY, "nb_points": b["nb_points"],
                 "alphas": b["alphas"], "methods": b["methods"]})
+    return None
+
+
+def _run_light(item, ctx):
+    """One class of n scores with a single score of the other class inserted at position `split`."""
+    from score_analysis import BootstrapConfig, Scores
+    from score_analysis.experimental import pointwise_band_ci
+    from score_analysis.roc_curve import roc_with_ci
+
+    n, split = item["n"], item["split"]
+    ep, en = item["easy"]
+    big = [float(i) for i in range(n)]
+    one = [split - 0.5]
+    for which in ("pos", "neg"):
+        pos, neg = (big, one) if which == "pos" else (one, big)
+        for cfg in (ot.CFGS[item["rot"] % 4], ot.CFGS[(item["rot"] + 1) % 4]):
+            src = Scores(pos[::-1], neg[::-1], nb_easy_pos=ep, nb_easy_neg=en, score_class=cfg[0], equal_class=cfg[1])
+            for alpha, method in ((0.05, "quantile"), (0.5, "bc")):
+                cfgobj = BootstrapConfig(nb_samples=2, bootstrap_method=method, sampling_method=lambda s: s)
+                case = {"big_class": which, "n": n, "other_score_at": one[0], "easy": [ep, en], "cfg": list(cfg), "alpha": alpha,
+                        "method": method, "sampler": "identity"}
+                for fname, f in (("roc_with_ci", roc_with_ci), ("pointwise_band_ci", pointwise_band_ci)):
+                    ctx.state()
+                    ok, r = guarded(ctx, fname, case, lambda: f(src, nb_points=None, alpha=alpha, config=cfgobj))
+                    ctx.tick()
+                    if ok and wellformed(ctx, dict(case, function=fname), src, r, fname == "roc_with_ci"):
+                        ctx.nontrivial()
+                        compare_bands(ctx, dict(case, function=fname), src, r, [src, src], alpha, method,
+                                      pointwise_only=fname != "roc_with_ci")
+    ctx.sample({"kind": "light", "n": n, "split": split, "easy": [ep, en]})
     return None
 
 
